@@ -264,6 +264,8 @@ class Facts:
         self.raw = json.load(open(path))
         from . import inline
         voc = inline.load_vocabulary()
+        vf0 = inline.load_vocabulary_fields()
+        self.moved = inline.canonicalise_modules(self.raw, voc, vf0, strip_lt) if voc is not None and self.raw.get("crate") == "regexml" else {}
         self.inlined = inline.inline_new_helpers(self.raw, voc, strip_lt) if voc is not None and self.raw.get("crate") == "regexml" else []
         self.renamed_closures = inline.canonicalise_closures(self.raw) if self.inlined else {}
         vf = inline.load_vocabulary_fields()
